@@ -228,3 +228,23 @@ PROPS["C14"] = dict(
                guard={"quick": 900, "thorough": 7200})],
     min_class_fraction={"container_depth_2plus": 0.03, "incomparable_pair": 0.1},
 )
+
+
+PROPS["C13"] = dict(
+    pkg="c13",
+    rule=("rapid histories of 2..15 operations over a pool of <=6 map handles and a key pool of 8 (collisions likely): create (map literal "
+          "through the language, host-built list map, hash map, NewToMap struct wrapper with generated attribute sets, "
+          "NewToMapReflection on a fixed struct, NewFuncMapFactory map, the description maps of binning's bins; optionally with 25 extra "
+          "keys to reach the >20-key branch of the flattening), put, + (merge), replace with another handle as replacement map (keys "
+          "inside and outside the original key set), replace chains of 1..13 steps (crossing the flatten threshold at depth 10), eval, map, "
+          "accept, combine. After EVERY step EVERY live handle is observed against a Go-map model: m.k, get, isAvail and ~ for every pool "
+          "key, one present extra key and one absent key; size(); list(); map/accept/eval copies; string() parsed back as a set; = against a "
+          "list-map and a hash-map built from the model in both operand orders, and inequality against the model with one value changed / "
+          "one key more; JSON export decoded with encoding/json. put of an existing key and + of overlapping maps must fail. Non-trivial: "
+          "nested storage wrappers or replace depth >=10; distinct = operation sequence."),
+    assumptions=["combine is only applied when the second map holds every key of the first (the description and the code differ otherwise)",
+                 "FuncMapFactory maps are consistent: the function knows exactly its declared keys"],
+    jobs=[dict(name="c13", run="^TestPropC13$", kind="rapid", shards=16, checks={"quick": 40000, "thorough": 1000000},
+               guard={"quick": 900, "thorough": 7200})],
+    min_class_fraction={"replace_depth_10plus": 0.03, "nested_storage_wrappers": 0.3, "more_than_20_keys": 0.05},
+)
